@@ -1092,7 +1092,7 @@ class FileParser(object):
         # special case for a float written like "3e5"
         mixed_exp = _ToFloat(Combine(Optional(sign) + digits + ee + Optional(sign) + digits))
 
-        nan = (_ToInf(oneOf("Inf -Inf")) |
+        nan = (_ToInf(oneOf("Inf -Inf inf -inf")) |
                _ToNan(oneOf("NaN nan NaN%  NaNQ NaNS qNaN sNaN 1.#SNAN 1.#QNAN -1.#IND")))
 
         string_text = Word(textchars)
